@@ -175,8 +175,11 @@ def one_case(ctx, cls_name, cls, kind, labels, make, old_idx, new_idx, opts):
         kw['strict'] = opts['strict']
     eff_strict = opts['strict'] if opts.get('strict') is not None else opts.get('obj_strict', False)
     unknown = [k for k in opts.get('fills', {}) if k not in obj.__dict__['index']]
+    from .common import h64
+    caller_filter = ['ignore', 'error', 'always'][h64(['wf', case]) % 3]     # the caller's own warnings action decides nothing here
+    case['caller_filter'] = caller_filter
     with warnings.catch_warnings():
-        warnings.simplefilter('ignore')
+        warnings.simplefilter(caller_filter)
         try:
             res = obj.reindex(new_span, **kw)
             exc = None
